@@ -25,6 +25,7 @@ func rulesC16(c *Ctx) {
 	ruleResolvedCalls(c)
 	ruleServerRegistersHooks(c)
 	ruleHookWriters(c)
+	ruleHookCallers(c)
 	ruleOptionProbes(c, "server", 5) // the hook options are found by their own probes
 	ruleServerWiring(c, []string{"WithPostChangeRIBHook", "WithRIBResolvedEntryHook", "WithVRFs"})
 }
@@ -442,4 +443,58 @@ func ruleHookWriters(c *Ctx) {
 		c.check(len(bad) == 0, rule, "rib."+t[0], "writers of "+t[1], "-", "stored only by "+strings.Join(writers, ", "),
 			"the hook field "+t[0]+"."+t[1]+" is also stored by "+strings.Join(bad, ", ")+": a hook swapped outside registration changes when or whether the consumer is told of a change (a notification deferred past the lock that ordered the change can be overtaken by a later one for the same key)")
 	}
+}
+
+// HOOK-CALLERS — one notification per change, issued where the change is made: the post-change hook is invoked only
+// by the audited install / remove / flush-remove functions (whose notification is decided per path by the family
+// rules), or by a helper new to the rules that only they call. A further caller elsewhere — e.g. the reference
+// bookkeeping "reporting" a replaced entry after the install already announced the new one — makes a consumer that
+// folds the notifications drop or resurrect an entry.
+func ruleHookCallers(c *Ctx) {
+	const rule = "HOOK-CALLERS"
+	audited := map[string]bool{}
+	for _, n := range []string{"AddIPv4", "AddIPv6", "AddMPLS", "AddNextHop", "AddNextHopGroup", "DeleteIPv4", "DeleteIPv6", "DeleteMPLS", "DeleteNextHop", "DeleteNextHopGroup",
+		"locklessDeleteIPv4", "locklessDeleteIPv6", "locklessDeleteMPLS", "locklessDeleteNH", "locklessDeleteNHG"} {
+		audited["RIBHolder."+n] = true
+	}
+	cg := c.P.callGraph()
+	var via func(f *types.Func, depth int) bool
+	via = func(f *types.Func, depth int) bool {
+		if audited[recvTypeName(f)+"."+f.Name()] && !isNewFunc(f) {
+			return true
+		}
+		if !isNewFunc(f) || depth >= 3 {
+			return false
+		}
+		cs := cg.callersOf(f)
+		if len(cs) == 0 {
+			return false
+		}
+		for _, c2 := range cs {
+			if !via(c2, depth+1) {
+				return false
+			}
+		}
+		return true
+	}
+	n := 0
+	var bad []string
+	for _, g := range c.P.AllFuncs("rib") {
+		if g.Decl.Body == nil {
+			continue
+		}
+		info := g.Pkg.TypesInfo
+		for _, call := range callsIn(g.Decl.Body) {
+			if fld, _ := fieldCall(info, call); fld == "postChangeHook" {
+				n++
+				if !via(g.Obj, 0) {
+					bad = append(bad, g.Name+" ("+c.P.pos(call.Pos())+")")
+				}
+			}
+		}
+	}
+	c.Sites += n
+	c.check(len(bad) == 0, rule, "rib", "callers of the post-change hook", "-", fmt.Sprintf("%d invocations, all in the audited install / remove / flush-remove functions", n),
+		"the post-change hook is invoked from "+strings.Join(bad, ", ")+", which is not one of the functions that make the change they announce: the consumer hears of one change twice, or in an order that does not match the RIB")
+	c.floor(rule, "invocations of the post-change hook", n, 15)
 }
